@@ -1827,10 +1827,27 @@ def regex_users(rep):
     it_fn = S.function(RD, "iterations")
     txt = unparse(it_fn)
     ok = "re.compile('^output-(\\\\d+)$')" in txt and "int(fl.split('-')[1])" in txt
-    fmt = [n for n in ast.walk(S.module(RD)) if isinstance(n, ast.JoinedStr)
-           and "output-" in unparse(n)]
-    fmts = {norm_src(n).split("output-")[1][:14] for n in fmt}
-    rep.check(ok and fmts == {"{restart:04d}/'"} or ok and all(
+    # every place that writes a restart directory name pads the number to four digits
+    # (whatever the expression that holds the number is called)
+    import re as _re
+    fmts = set()
+    for n in ast.walk(S.module(RD)):
+        if isinstance(n, ast.JoinedStr):
+            for i, part in enumerate(n.values):
+                if isinstance(part, ast.Constant) and isinstance(part.value, str) \
+                        and part.value.endswith("output-"):
+                    nxt = n.values[i + 1] if i + 1 < len(n.values) else None
+                    spec = ""
+                    if isinstance(nxt, ast.FormattedValue) and nxt.format_spec is not None:
+                        spec = "".join(v.value for v in nxt.format_spec.values
+                                       if isinstance(v, ast.Constant))
+                    fmts.add("{restart:" + spec + "}" if spec else "{restart}")
+        elif isinstance(n, ast.Constant) and isinstance(n.value, str) \
+                and "output-{" in n.value and not isinstance(
+                    getattr(n, "_parent", None), ast.JoinedStr):
+            for m in _re.finditer(r"output-\{\w*(?::([^}]*))?\}", n.value):
+                fmts.add("{restart:" + m.group(1) + "}" if m.group(1) else "{restart}")
+    rep.check(ok and bool(fmts) and all(
         f.startswith("{restart:04d}") for f in fmts), "regex-groups",
         f"{RD}::restart-directory-naming",
         f"restart directories must be written output-{{restart:04d}} and parsed by "
